@@ -135,20 +135,21 @@ def parse_key(key):
     return Cfg(ssm=ssm, q=q, d=d, order=o, lin=lin, calib=calib, strategy=strategy, damp=damp.split("_")[1])
 
 
-def make_solver(cfg, co):
+def make_solver(cfg, co, constraint_init=False):
     from probdiffeq import probdiffeq
     ssm = cm.factory(cfg.ssm)
     vf = make_ode(co, cfg.order)
     con = ssm.constraint_ode_ts0(vf) if cfg.lin == "ts0" else ssm.constraint_ode_ts1(vf)
     strat = {"filter": probdiffeq.strategy_filter, "fixedinterval": probdiffeq.strategy_smoother_fixedinterval,
              "fixedpoint": probdiffeq.strategy_smoother_fixedpoint}[cfg.strategy]()
+    kw = {"constraint_init": con} if constraint_init else {}
     if cfg.calib == "none":
-        return probdiffeq.solver(strategy=strat, constraint=con), ssm, con
+        return probdiffeq.solver(strategy=strat, constraint=con, **kw), ssm, con
     if cfg.calib == "mle":
         return probdiffeq.solver_mle(strategy=strat, constraint=con,
-                                     correct_asymptotic_underconfidence=cfg.correct), ssm, con
+                                     correct_asymptotic_underconfidence=cfg.correct, **kw), ssm, con
     relin = cfg.calib == "dynamic_relin"
-    return probdiffeq.solver_dynamic(strategy=strat, constraint=con, re_linearize_after_calibration=relin), ssm, con
+    return probdiffeq.solver_dynamic(strategy=strat, constraint=con, re_linearize_after_calibration=relin, **kw), ssm, con
 
 
 def concrete_prior(cfg):
